@@ -180,6 +180,25 @@ class CFuture(B.NativeObj):
         ctx.ghost["here"] = ("loop", z3.simplify(self.loop.t).sexpr())
         try:
             return self.co.thunk()
+        except PyRaise as pr:
+            # asyncio copies the outcome into the concurrent future through futures._convert_future_exc: an exception whose class
+            # is EXACTLY concurrent.futures.TimeoutError (= builtin TimeoutError since 3.11) / CancelledError / InvalidStateError is
+            # re-created (same class, same args, NEW object); every other exception object is handed over as it is
+            cid = I.exc_class_term(pr.exc)
+            exact = [ExternalRef(n) for n in ("TimeoutError", "concurrent.futures.CancelledError", "concurrent.futures.InvalidStateError")]
+            is_converted = z3.Or(*[cid == z3.IntVal(I.E.classes.cid(k)) for k in exact])
+            if ctx.choose(2, "concurrent-future-recreates-exception") == 1:
+                ctx.assume(is_converted)
+                if not ctx.feasible():
+                    raise PathEnd()
+                fresh_exc = I.sym_exception(ExternalRef("BaseException"), "recreated")
+                ctx.assume(I.exc_class_term(fresh_exc) == cid)
+                ctx.assume(Z.Val.id(fresh_exc.t) != Z.Val.id(pr.exc.t))
+                raise PyRaise(fresh_exc)
+            ctx.assume(z3.Not(is_converted))
+            if not ctx.feasible():
+                raise PathEnd()
+            raise
         finally:
             ctx.ghost["here"] = saved
 
